@@ -60,7 +60,7 @@ CHECKS = {
  "C08": dict(tech="writer/reader agreement as language inclusions: reject/escape byte sets read from the source vs. the tokenizer automaton over all 256 bytes; DFA inclusion (product construction) for comment text; constructor discipline of the encoding type; must-not-reach-Err rule for raw-byte invalidation",
       text="Decides exhaustively (finite alphabets / regular languages) that accepted tag names and attribute names cannot leave the name states, that the double-quoted value state ends only on escaped bytes, that escaped body text can reach no tag state, and that every comment text that would end the comment early is rejected (counterexample-producing DFA inclusion); plus atomicity and no-replacement encoding of validated setters. Cross-encoding confusion and other parsers are not decided.",
       ref="DESIGN.md §3 C08"),
- "C17": dict(tech="C header prototype reader compared with extern \; closure-capture analysis of handler closures; dominance of validation by ownership transfer (drop_callback pairing); dropped-Result scan"C\" signatures from MIR; namesake-routing, catch_panic containment, Err-edge reachability and ownership pairing rules over the C API crate's MIR",
+ "C17": dict(tech="C header prototype reader compared with extern \"C\" signatures from MIR; namesake-routing, catch_panic containment, Err-edge reachability and ownership pairing rules over the C API crate's MIR; closure-capture analysis of handler closures; dominance of validation by ownership transfer (drop_callback pairing); dropped-Result scan",
       text="Decides wrapper discipline: all 93 declared functions exist with matching arity and type classes and the repr(C) struct layouts agree; each accessor/mutator calls its Rust namesake and is_html selects Html; rewriter new/write/end run only under catch_panic; every examined Result reaches save_last_error on its Err edge; streaming callbacks succeed iff they return 0; Box::into_raw/from_raw types pair up and Str::new never returns NULL for a present string. Equality of C-driven and Rust-driven runs and allocator hygiene over all histories are not decided.",
       ref="DESIGN.md §3 C17"),
 }
